@@ -6,6 +6,7 @@ CONSTANTS
   MaxLook = 2
   Proxies = {}
   PidFaults = TRUE
+  ProxyUnregisters = FALSE
   Mutant = "none"
 INVARIANTS
   TypeOK OneWinner LookupNotDead LookupLive NoStaleUnregister Reusable DevOnlyByProxy
